@@ -72,7 +72,7 @@ impl Property for C18 {
         ]
     }
     fn plan(&self, tier: Tier) -> Plan {
-        Plan { workers: tier.pick(4, 16), cases_per_worker: tier.pick(1_000, 12_500), max_shrink_iters: 3000 }
+        Plan { workers: tier.pick(4, 16), cases_per_worker: tier.pick(10_000, 60_000), max_shrink_iters: 3000 }
     }
     fn selftest(&self) -> Result<serde_json::Value, String> {
         crate::selftest::arc_selftest()
